@@ -1,7 +1,9 @@
 #!/bin/bash
 # tools/try_seed.sh <patch.diff> <check-id> [<check-id> ...]   (env TIER=quick|thorough, default quick)
 # Applies a seeded change to /repo, runs the named checks (bin/check rebuilds from the working tree), prints one
-# summary line per check, and always restores /repo's working tree.
+# summary line per check, and always restores /repo's working tree. With VERIF_HOME=<snapshot of /verif> (a git worktree
+# of the committed tree with its own target directory) the checks run from that snapshot, so /verif can be edited meanwhile;
+# evidence and replays then go to $VERIF_HOME, never to /verif.
 set -u
 patch="$(readlink -f "$1")"; shift
 tier="${TIER:-quick}"
@@ -10,7 +12,7 @@ if ! git -C /repo apply --check "$patch" 2>/dev/null; then echo "patch does not 
 git -C /repo apply "$patch"
 trap 'git -C /repo checkout -- . ; git -C /repo clean -fdq -- lang cli editor 2>/dev/null' EXIT
 for id in "$@"; do
-  out=$(VERIF_SCRATCH="${VERIF_SCRATCH:-}" /verif/bin/check "$id" "$tier" 2>&1); code=$?
+  out=$(VERIF_SCRATCH="${VERIF_SCRATCH:-}" "${VERIF_HOME:-/verif}/bin/check" "$id" "$tier" 2>&1); code=$?
   nviol=$(printf '%s\n' "$out" | grep -c '^VIOLATION')
   sigs=$(printf '%s\n' "$out" | grep 'signature:' | sed 's/  tags:.*//; s/^ *signature: //' | sort | uniq -c | sort -rn | head -4 | tr '\n' ';')
   echo "SEED $(basename $(dirname "$patch")) check=$id tier=$tier exit=$code violations=$nviol :: $sigs"
